@@ -185,8 +185,13 @@ pub fn run_rt(sc: &Scenario, workers: usize) -> RtResult {
     }
     rec.rec(K::Phase(2));
 
-    // epilogue: stop everything, drop every handle, wait for the actors
+    // epilogue: stop every other actor, drop every handle, wait for the actors
+    let keeps = sc.actors.iter().any(|sp| format!("{sp:?}").contains("Keep"));
     for a in 0..n {
+        // every other actor is not stopped: it has to end because its last handle goes away
+        if a % 2 == 1 && !keeps {
+            continue;
+        }
         if let Some(r) = world.peer(a) {
             let t = Tracked::new(r, a, &rec);
             let op = rec.new_op();
